@@ -70,3 +70,62 @@ Example c23_nonvacuous :
   /\ place STACKSIZE [mk_gvar "a" 3 (Some [7%Z]); mk_gvar "b" 2 None]
      = ([("a"%string, 1000%Z); ("b"%string, 1003%Z)], [(1000%Z, [7%Z])], 1005%Z).
 Proof. vm_compute. repeat split; auto 60. Qed.
+
+(* ---- do_shape: the emitted block/loop/if skeleton with its br depth indices (label-stack
+   semantics, Spec/WasmCtlSpec.v) executes exactly like the shape tree; c is the structured form
+   of the token stream that the check compares with the emitted instructions *)
+From PV Require Import Spec.WasmCtlSpec Model.ShapeCompile Proofs.C23_doshape.
+
+Theorem c23_do_shape_exec : forall (g : StructSpec.cfg) (o : oracle) s c fuel h,
+  compile [] s = Some c ->
+  do_shape [] s = flat c /\ res_rel [] (exec g o fuel s h) (wexec g o fuel c h).
+Proof.
+  intros g o s c fuel h C. split; [exact (flat_compile s [] c C) | exact (do_shape_exec g o s c fuel h C)].
+Qed.
+Print Assumptions c23_do_shape_exec.
+
+(* together with the validator: the control flow of the emitted wasm follows the CFG walk *)
+Theorem c23_do_shape_sound : forall (g : StructSpec.cfg) s c,
+  check_shape g s = true -> compile [] s = Some c ->
+  forall (o : oracle) (fuel : nat), wagrees g o c fuel.
+Proof. intros g s c K C o fuel. exact (do_shape_follows_cfg g o s c fuel K C). Qed.
+Print Assumptions c23_do_shape_sound.
+
+Example c23_do_shape_nonvacuous :
+  compile [] (SSeq [SBasic 0; SSeq [SLoop (SIf 1 (SSeq [SBasic 2; SContinue 0]) (SBreak 0)); SBasic 3]])%nat
+  = Some [WCode 0; WBlock [WLoop [WCode 1; WIf [WCode 2; WBr 1] (Some [WBr 2])]]; WCode 3]%nat.
+Proof. vm_compute. reflexivity. Qed.
+
+(* ---- re-wrapping of narrow arithmetic (emit_wrap, fixes/C23-rewrap-narrow.diff) and casts *)
+From PV Require Import Model.Ir2WasmPost Proofs.C23_post Proofs.C23_table2.
+
+(* a narrow + - * << row that is followed by the re-wrapping of its type is exact *)
+Theorem c23_op_table_rewrapped : forall c : IRSem.cfg, ptr_bytes c = 4%Z ->
+  forall o t w p, In (o, t, w) optable -> In (o, t, p) posttable ->
+  inexact o t = true -> signed_on_unsigned o t = false -> post_eqb p (wrap_post t) = true ->
+  exact_post_row c (o, t, w, p).
+Proof. intros c Hp. exact (op_table_rewrapped c). Qed.
+Print Assumptions c23_op_table_rewrapped.
+
+(* on a tree where every narrow row is re-wrapped (rewrap_complete, evaluated by the check on
+   every run) the whole operator table is exact, the signed ptr rows excepted *)
+Theorem c23_op_table_exact_when_rewrapped : forall c : IRSem.cfg, ptr_bytes c = 4%Z ->
+  rewrap_complete = true ->
+  forall o t w p, In (o, t, w) optable -> In (o, t, p) posttable ->
+  signed_on_unsigned o t = false -> exact_post_row c (o, t, w, p).
+Proof. intros c Hp. exact (op_table_exact_when_rewrapped c Hp). Qed.
+Print Assumptions c23_op_table_exact_when_rewrapped.
+
+(* integer casts: conversion opcode + re-wrapping = IR cast, for every row classified good;
+   cast_bad_rows (evaluated by the check) lists the others *)
+Theorem c23_cast_table_sound : forall c : IRSem.cfg, ptr_bytes c = 4%Z ->
+  forall f t cv p, In (f, t, cv, p) casttable -> cast_good (f, t, cv, p) = true ->
+  cast_row c f t cv p.
+Proof. intros c Hp. exact (cast_table_sound c). Qed.
+Print Assumptions c23_cast_table_sound.
+
+(* narrowing casts without re-wrapping are wrong; i32 -> u64 by zero extension is wrong *)
+Theorem c23_cast_refuted : forall c : IRSem.cfg,
+  ~ cast_row c I32 U8 CvNone PNone /\ (forall p, ~ cast_row c I32 U64 CvExtU p).
+Proof. intros c. split; [exact (cast_i32_u8_bare_wrong c) | exact (cast_i32_u64_wrong c)]. Qed.
+Print Assumptions c23_cast_refuted.
